@@ -285,6 +285,17 @@ func derivedOnlyFrom(v ssa.Value, from ssa.Value, seen map[ssa.Value]bool) bool 
 	case *ssa.Call:
 		if f := x.Call.StaticCallee(); f != nil && modFollow(f) && len(x.Call.Args) > 0 {
 			for _, a := range x.Call.Args {
+				if !pointerLike(a.Type()) {
+					// scalars (the key of the same iteration, flags) cannot carry another tile matrix' geometry
+					if e, ok := a.(*ssa.Extract); ok {
+						if fe, ok2 := from.(*ssa.Extract); ok2 && e.Tuple == fe.Tuple {
+							continue
+						}
+					}
+					if _, isConst := a.(*ssa.Const); isConst {
+						continue
+					}
+				}
 				if !derivedOnlyFrom(a, from, seen) {
 					return false
 				}
